@@ -304,7 +304,7 @@ func (e *Env) CheckPage(k Call, o *ListObs, p PageSpec) {
 	}
 	if len(o.IDs) > int(p.Limit) {
 		if c.Failf(keyCap, "%s returned %d elements, advertised limit is %d", k, len(o.IDs), p.Limit) {
-			c.Class("known-page-cap-hit")
+			c.Class("known-page-cap-hit " + k.RPCName())
 		}
 	}
 	lo, hi := expectedRange(p.Index, p.Size, n)
